@@ -655,7 +655,11 @@ def run_markup(ctx, model_ok=True):
                  'props/Lorem.v (lorem model extension): Lorem_randint, Lorem_sample_safe, Lorem_insert_commas_safe, Lorem_vocabularies_ok '
                  '(complete sweep), Lorem_generator_safe (never Internal / never loop fuel, every header and stream), Lorem_paragraph_words '
                  '(exactly word_count vocabulary entries in sentence form, common opening), Lorem_header_range, Lorem_word_count_in_range, '
-                 'Lorem_pass (only values change, only under a lorem header), Lorem_free_forest (porting lemma), Lorem_text_node, Lorem_test_agree',
+                 'Lorem_paragraph_exact_words (the text is the join of exactly word_count tokens), Lorem_words_are_blank_free_runs, '
+                 'Lorem_generator_reads_stream / Lorem_exhausted_on_every_prefix / Lorem_pass_reads_stream (the oracle is read left to right: the '
+                 'result depends only on the draws consumed; OutOfFuel = more draws are needed), '
+                 'Lorem_pass (only values change, only under a lorem header), Lorem_free_forest (porting lemma), Lorem_text_node, '
+                 'Lorem_top_level_node (both passes composed, BEM on or off), Lorem_test_agree',
                  'props/Href.v (markup.href model extension): Href_url_matcher / Href_email_matcher / Href_proto_matcher (matcher = '
                  'denotation of its regex, all strings), Href_value, Href_value_nonempty, Href_attrs_spec, Href_never_overwrites, '
                  'Href_written_only_when_empty, Href_text_as_by_insert_text, Href_off_is_href_free_converter (porting lemma), '
